@@ -585,7 +585,7 @@ pub fn replay(args: &Args) {
         }
         let grammar = stage.ends_with("-grammar");
         let frames: Vec<Vec<u8>> = if grammar {
-            grammar_frames(med, stage, mu, &corpus_cache[&key], 0x51ED + k as u64)
+            grammar_frames(med, stage, mu, &corpus_cache[&key], 0x51ED + k as u64, v)
         } else {
             corpus_cache[&key].iter().filter(|c| if stage == "reflect" { !c.to_a } else { c.to_a && c.stage == stage }).map(|c| c.frame.clone()).collect()
         };
@@ -737,7 +737,8 @@ fn iphc_inline_len(b0: u8, b1: u8) -> usize {
 }
 
 /// Frames built from the grammar of the headers rather than from a recorded exchange.
-fn grammar_frames(med: Med, stage: &str, kind: &str, corpus: &[Cap], seed: u64) -> Vec<Vec<u8>> {
+fn grammar_frames(med: Med, stage: &str, kind: &str, corpus: &[Cap], seed: u64, v: u8) -> Vec<Vec<u8>> {
+    let _ = v;
     let mut rng = Rng::new(seed);
     let mut out = vec![];
     match (med, stage) {
@@ -849,6 +850,9 @@ fn grammar_frames(med: Med, stage: &str, kind: &str, corpus: &[Cap], seed: u64) 
                     }
                 }
             }
+        }
+        (_, "opt-grammar") => {
+            out = option_frames(med, v, kind, corpus, &mut rng);
         }
         _ => {
             // IPv4 fragments: pairs (same ident) over offset x length x MF, valid header checksum
@@ -1067,4 +1071,250 @@ fn watchdog(beat: Arc<AtomicU64>, cur: Arc<Mutex<String>>, outp: String) {
             }
         }
     });
+}
+
+/// offset of the IP header in a frame of this medium
+fn ip_off(med: Med) -> usize {
+    if med == Med::Eth {
+        14
+    } else {
+        0
+    }
+}
+
+/// recompute lengths and checksums of an IPv4 / IPv6 packet carrying TCP, UDP or ICMPv6 directly (no extension headers)
+fn fix_ip(p: &mut Vec<u8>) {
+    if p.len() < 20 {
+        return;
+    }
+    if p[0] >> 4 == 4 {
+        let ihl = ((p[0] & 15) as usize) * 4;
+        if ihl < 20 || p.len() < ihl {
+            return;
+        }
+        let total = p.len() as u16;
+        p[2..4].copy_from_slice(&total.to_be_bytes());
+        p[10] = 0;
+        p[11] = 0;
+        let c = csum(&p[..ihl]);
+        p[10..12].copy_from_slice(&c.to_be_bytes());
+        let proto = p[9];
+        let (src, dst) = (p[12..16].to_vec(), p[16..20].to_vec());
+        let l4 = &mut p[ihl..];
+        let off = match proto {
+            6 => 16,
+            17 => 6,
+            _ => return,
+        };
+        if l4.len() < off + 2 {
+            return;
+        }
+        l4[off] = 0;
+        l4[off + 1] = 0;
+        let c = csum_fold(csum_add(pseudo4(&src, &dst, proto, l4.len()), l4));
+        l4[off..off + 2].copy_from_slice(&c.to_be_bytes());
+    } else if p.len() >= 40 {
+        let pl = (p.len() - 40) as u16;
+        p[4..6].copy_from_slice(&pl.to_be_bytes());
+        let next = p[6];
+        let (src, dst) = (p[8..24].to_vec(), p[24..40].to_vec());
+        let l4 = &mut p[40..];
+        let off = match next {
+            6 => 16,
+            17 => 6,
+            58 => 2,
+            _ => return,
+        };
+        if l4.len() < off + 2 {
+            return;
+        }
+        l4[off] = 0;
+        l4[off + 1] = 0;
+        let c = csum_fold(csum_add(pseudo6(&src, &dst, next, l4.len()), l4));
+        l4[off..off + 2].copy_from_slice(&c.to_be_bytes());
+    }
+}
+
+/// Frames whose option areas are enumerated: option kind x announced length x room actually there.
+fn option_frames(med: Med, v: u8, kind: &str, corpus: &[Cap], rng: &mut Rng) -> Vec<Vec<u8>> {
+    let mut out: Vec<Vec<u8>> = vec![];
+    let io = ip_off(med);
+    let wrap = |p: Vec<u8>, like: &[u8]| -> Vec<u8> {
+        if med == Med::Eth {
+            let mut f = like[..14].to_vec();
+            f.extend_from_slice(&p);
+            f
+        } else {
+            p
+        }
+    };
+    let hdr = if v == 4 { 20 } else { 40 };
+    match kind {
+        "tcp" => {
+            // carriers: the peer's SYN (to the listener) and a data segment of the open connection
+            let carriers: Vec<Vec<u8>> = corpus
+                .iter()
+                .filter(|c| c.to_a && c.stage == "tcp-passive" && c.frame.len() >= io + hdr + 20)
+                .filter(|c| {
+                    let p = &c.frame[io..];
+                    (v == 4 && p[0] >> 4 == 4 && p[9] == 6) || (v == 6 && p[0] >> 4 == 6 && p[6] == 6)
+                })
+                .map(|c| c.frame.clone())
+                .collect();
+            let mut pick: Vec<Vec<u8>> = vec![];
+            if let Some(f) = carriers.first() {
+                pick.push(f.clone());
+            }
+            if let Some(f) = carriers.iter().max_by_key(|f| f.len()) {
+                pick.push(f.clone());
+            }
+            for f in pick {
+                let p = &f[io..];
+                let doff = ((p[hdr + 12] >> 4) as usize) * 4;
+                let head = p[..hdr + 20].to_vec();
+                let payload = p[(hdr + doff).min(p.len())..].to_vec();
+                for &k in &[0u8, 1, 2, 3, 4, 5, 8, 30, 254, 255] {
+                    for len in 0..=42u8 {
+                        for &area in &[4usize, 12, 40] {
+                            let mut opts = vec![k, len];
+                            while opts.len() < area {
+                                opts.push(if opts.len() < len as usize { rng.below(256) as u8 } else { 1 });
+                            }
+                            opts.truncate(area);
+                            let mut q = head.clone();
+                            q[hdr + 12] = (((20 + area) / 4) as u8) << 4 | (q[hdr + 12] & 0x0f);
+                            q.extend_from_slice(&opts);
+                            q.extend_from_slice(&payload);
+                            fix_ip(&mut q);
+                            out.push(wrap(q, &f));
+                        }
+                    }
+                }
+            }
+        }
+        "ipv4" => {
+            if let Some(f) = corpus.iter().find(|c| c.to_a && c.stage == "udp-small" && c.frame.len() >= io + 28 && c.frame[io] == 0x45 && c.frame[io + 9] == 17) {
+                let p = &f.frame[io..];
+                for ihl in 5..=15usize {
+                    for &k in &[0u8, 1, 7, 68, 131, 137, 148, 255] {
+                        for len in [0u8, 1, 2, 3, 4, 7, 8, 11, 39, 40, 41, 255] {
+                            let mut q = p[..20].to_vec();
+                            q[0] = 0x40 | ihl as u8;
+                            let mut opts = vec![k, len, 4];
+                            while opts.len() < (ihl - 5) * 4 {
+                                opts.push(rng.below(256) as u8);
+                            }
+                            opts.truncate((ihl - 5) * 4);
+                            q.extend_from_slice(&opts);
+                            q.extend_from_slice(&p[20..]);
+                            fix_ip(&mut q);
+                            out.push(wrap(q, &f.frame));
+                        }
+                    }
+                }
+            }
+        }
+        "ndisc" => {
+            // carriers: neighbour solicitation for A, neighbour advertisement, router advertisement, redirect
+            let like = corpus.iter().find(|c| c.to_a && c.frame.len() >= io + 40 && c.frame[io] >> 4 == 6).map(|c| c.frame.clone()).unwrap_or_else(|| vec![0; 14]);
+            let a6 = v6b(Ipv6Address::new(0xfd00, 0, 0, 0, 0, 0, 0, 1));
+            let b6 = v6b(Ipv6Address::new(0xfd00, 0, 0, 0, 0, 0, 0, 2));
+            let mut heads: Vec<Vec<u8>> = vec![];
+            let mut ns = vec![135u8, 0, 0, 0, 0, 0, 0, 0];
+            ns.extend_from_slice(&a6);
+            heads.push(ns);
+            let mut na = vec![136u8, 0, 0, 0, 0x60, 0, 0, 0];
+            na.extend_from_slice(&b6);
+            heads.push(na);
+            heads.push(vec![134u8, 0, 0, 0, 64, 0, 0x07, 0x08, 0, 0, 0, 0, 0, 0, 0, 0]);
+            let mut rd = vec![137u8, 0, 0, 0, 0, 0, 0, 0];
+            rd.extend_from_slice(&b6);
+            rd.extend_from_slice(&b6);
+            heads.push(rd);
+            heads.push(vec![133u8, 0, 0, 0, 0, 0, 0, 0]);
+            for h in &heads {
+                for &ty in &[0u8, 1, 2, 3, 4, 5, 14, 24, 25, 31, 255] {
+                    for &len in &[0u8, 1, 2, 3, 4, 5, 32, 255] {
+                        for &have in &[0usize, 1, 2, 6, 7, 8, 15, 16, 24, 32, 40] {
+                            let mut body = h.clone();
+                            if have >= 1 {
+                                body.push(ty);
+                            }
+                            if have >= 2 {
+                                body.push(len);
+                            }
+                            while body.len() < h.len() + have {
+                                body.push(rng.below(256) as u8);
+                            }
+                            let p = ipv6_packet(b6, a6, 58, 255, &body, true);
+                            out.push(wrap(p, &like));
+                        }
+                    }
+                }
+            }
+        }
+        "hbh" => {
+            let like = corpus.iter().find(|c| c.to_a && c.frame.len() >= io + 40 && c.frame[io] >> 4 == 6).map(|c| c.frame.clone()).unwrap_or_else(|| vec![0; 14]);
+            let a6 = v6b(Ipv6Address::new(0xfd00, 0, 0, 0, 0, 0, 0, 1));
+            let b6 = v6b(Ipv6Address::new(0xfd00, 0, 0, 0, 0, 0, 0, 2));
+            let mut u = udp_datagram(7001, 7000, b"options in front");
+            let c = csum_fold(csum_add(pseudo6(&b6, &a6, 17, u.len()), &u));
+            u[6..8].copy_from_slice(&c.to_be_bytes());
+            for &eh in &[0u8, 60, 43] {
+                for &ty in &[0u8, 1, 5, 0x3e, 0x63, 0x7f, 0x80, 0xc2, 0xff] {
+                    for len in 0..=20u8 {
+                        for &hlen in &[0u8, 1, 2, 31] {
+                            for &room in &[8usize, 16, 24] {
+                                let mut x = vec![17u8, hlen, ty, len];
+                                while x.len() < room {
+                                    x.push(rng.below(4) as u8);
+                                }
+                                x.extend_from_slice(&u);
+                                out.push(wrap(ipv6_packet(b6, a6, eh, 64, &x, false), &like));
+                            }
+                        }
+                    }
+                }
+            }
+        }
+        _ => {
+            // DHCP: the server's recorded offer / ack with the option area replaced
+            for f in corpus.iter().filter(|c| c.to_a && c.stage == "dhcp" && c.frame.len() > 282) {
+                let fixed = &f.frame[..14 + 20 + 8 + 240];
+                for &code in &[0u8, 1, 3, 6, 12, 51, 52, 53, 54, 58, 59, 61, 255] {
+                    for &len in &[0u8, 1, 2, 3, 4, 5, 8, 12, 200, 255] {
+                        for &have in &[0usize, 1, 2, 3, 6, 14, 260] {
+                            let mut q = fixed.to_vec();
+                            // message type first in half of the cases, so that parsing goes on
+                            if have % 2 == 0 {
+                                q.extend_from_slice(&[53, 1, if code % 2 == 0 { 2 } else { 5 }]);
+                            }
+                            let mut o = vec![code, len];
+                            while o.len() < have {
+                                o.push(rng.below(256) as u8);
+                            }
+                            o.truncate(have);
+                            q.extend_from_slice(&o);
+                            let mut p = q[14..].to_vec();
+                            let ul = (p.len() - 20) as u16;
+                            p[24..26].copy_from_slice(&ul.to_be_bytes());
+                            p[26] = 0;
+                            p[27] = 0; // UDP checksum 0 = none (IPv4)
+                            p[0] = 0x45;
+                            let tl = p.len() as u16;
+                            p[2..4].copy_from_slice(&tl.to_be_bytes());
+                            p[10] = 0;
+                            p[11] = 0;
+                            let c = csum(&p[..20]);
+                            p[10..12].copy_from_slice(&c.to_be_bytes());
+                            let mut fr = q[..14].to_vec();
+                            fr.extend_from_slice(&p);
+                            out.push(fr);
+                        }
+                    }
+                }
+            }
+        }
+    }
+    out
 }
